@@ -385,6 +385,17 @@ let c13_write kind zh tys vals budget =
     Printf.sprintf "err=%s accepted=%s written=%s" (show_bool (not ok)) (hb w.w_accepted) (hn w.w_n)
   | Err -> "enc=ERR" | Panic -> "enc=PANIC"
 
+let c13_write_chunked kind zh tys vals budget chunk =
+  let t = ty_of tys and v = val_of vals in
+  let enc = if kind = "view" then
+      (match from_val zh t v with OK n -> ser_node t n | Err -> Err | Panic -> Panic)
+    else flat_enc t v in
+  match enc with
+  | OK bs ->
+    let (w, ok) = cw_write_all { cw_budget = Some (nh budget); cw_chunk = nh chunk; cw_accepted = []; cw_n = N0 } [bs] in
+    Printf.sprintf "err=%s accepted=%s written=%s" (show_bool (not ok)) (hb w.cw_accepted) (hn w.cw_n)
+  | Err -> "enc=ERR" | Panic -> "enc=PANIC"
+
 (* ---- C20 ---- *)
 let c20 zh tys data =
   let t = ty_of tys in
@@ -398,6 +409,16 @@ let c20 zh tys data =
     (match fr with OK _ -> "OK" | Err -> "ERR" | Panic -> "PANIC")
     (hn fa) (hn (N.add (N.mul (N.mul (n_of_int 2) (fperbyte t)) len) (N.add (N.add (fnew t) (n_of_int 96)) (ffoot t))))
 
+
+(* flat decode into a recycled destination (prior state from the previous value) *)
+let c20r tys data prevs =
+  let t = ty_of tys in
+  let bs = bytes_of_hex data in
+  let len = n_of_int (List.length bs) in
+  let (fr, fa) = flat_decode_a t (ctree_of t (val_of prevs)) bs in
+  Printf.sprintf "fres=%s fmalloc=%s fbound=%s"
+    (match fr with OK _ -> "OK" | Err -> "ERR" | Panic -> "PANIC")
+    (hn fa) (hn (N.add (N.mul (N.mul (n_of_int 2) (fperbyte t)) len) (N.add (N.add (fnew t) (n_of_int 96)) (ffoot t))))
 
 (* ---- extras: Uint8*HTR, Encode/Decode, Sum, Skip, dynamic hex ---- *)
 let u8htr h zh kind data limit =
@@ -479,8 +500,10 @@ let dispatch set_cfg cur_h cur_zh (op : string) (args : string list) : string =
   | "c13p", [data; chunks; eof; fail; reqs] -> c13_prim data chunks eof fail reqs
   | "c13r", [kind; t; data; got] -> set_cfg "sha"; c13_read kind !cur_zh t data got
   | "c13w", [kind; t; v; budget] -> set_cfg "sha"; c13_write kind !cur_zh t v budget
+  | "c13wc", [kind; t; v; budget; chunk] -> set_cfg "sha"; c13_write_chunked kind !cur_zh t v budget chunk
   | "c13we", [kind; t; v; budget] -> set_cfg "sha"; c13_write_eager kind !cur_zh t v budget
   | "c20", [t; data] -> set_cfg "sha"; c20 !cur_zh t data
+  | "c20r", [t; data; prev] -> c20r t data prev
   | "hist", [cfg; t; v; route; ops] ->
     (* cfg "sha!" / "alt!": identity-level history, no comparison with the plain-value machine
        (used for types with List/Vector[bool], whose spec root differs: known finding D3) *)
